@@ -219,3 +219,53 @@ impl RelayLatencies {
         list.into_iter().min()
     }
 }
+
+/// Verification hooks (only with `--cfg iroh_verif`): crate-visible entry points to the
+/// module-private report aggregation, re-exported by `crate::verif_hooks_netrep`.
+#[cfg(iroh_verif)]
+impl Report {
+    /// Folds one probe report into this report with [`Report::update`].
+    ///
+    /// `addr` is ignored for [`Probe::Https`].
+    pub(crate) fn verif_update(
+        &mut self,
+        probe: Probe,
+        relay: RelayUrl,
+        latency: Duration,
+        addr: SocketAddr,
+    ) {
+        use super::reportgen::{HttpsProbeReport, QadProbeReport};
+        let report = match probe {
+            Probe::Https => ProbeReport::Https(HttpsProbeReport { relay, latency }),
+            Probe::QadIpv4 => ProbeReport::QadIpv4(QadProbeReport {
+                relay,
+                latency,
+                addr,
+            }),
+            Probe::QadIpv6 => ProbeReport::QadIpv6(QadProbeReport {
+                relay,
+                latency,
+                addr,
+            }),
+        };
+        self.update(&report);
+    }
+}
+
+#[cfg(iroh_verif)]
+impl RelayLatencies {
+    /// Calls [`RelayLatencies::update_relay`].
+    pub(crate) fn verif_update_relay(&mut self, url: RelayUrl, latency: Duration, probe: Probe) {
+        self.update_relay(url, latency, probe);
+    }
+
+    /// Calls [`RelayLatencies::merge`].
+    pub(crate) fn verif_merge(&mut self, other: &RelayLatencies) {
+        self.merge(other);
+    }
+
+    /// Calls [`RelayLatencies::get`].
+    pub(crate) fn verif_get(&self, url: &RelayUrl) -> Option<Duration> {
+        self.get(url)
+    }
+}
